@@ -6,7 +6,9 @@
 //!
 //! usage: mv-harness <property> --seed N --cases N --out DIR [--thorough] [--replay FILE]
 
+mod c07;
 mod c08;
+mod prom;
 mod expo;
 mod util;
 
@@ -50,7 +52,11 @@ fn main() {
     }
     let mut out = Out::new(&cfg.out);
     match prop.as_str() {
-        "C08" => c08::run(&cfg, &mut out),
+        "C07" => c07::run(&cfg, &mut out),
+        "C08" => {
+            c08::run(&cfg, &mut out);
+            c08::run_sessions(&cfg, &mut out);
+        }
         other => {
             eprintln!("unknown property {}", other);
             std::process::exit(2);
